@@ -353,6 +353,14 @@ def check(prog, rep):
     from ..rules_own import copy_protocol
 
     copy_protocol(prog, rep)
+    # nothing on the way is memoised on a key that does not determine the answer
+    from ..rules_own import memo_rule
+
+    memo_rule(prog, rep, rule="MEMO")
+    # ends are timestamp + duration: instant arithmetic only because Event normalises timestamps to UTC (C13-NORMALISE)
+    from .c13 import normalisation
+
+    normalisation(prog, rep)
 
 
 VARIANTS = [
